@@ -276,11 +276,18 @@ impl FromStr for HLCTimestamp {
             .and_then(|v| v.parse::<u8>().ok())
             .ok_or(InvalidFormat)?;
 
-        Ok(Self::new(
-            parts_as_duration(seconds, fractional),
-            counter,
-            node,
-        ))
+        // Out of range values must be an error rather than tripping the
+        // capacity assertion in `new` (or overflowing the duration).
+        if seconds > TIMESTAMP_MAX {
+            return Err(InvalidFormat);
+        }
+
+        let duration = parts_as_duration(seconds, fractional);
+        if duration.as_secs() > TIMESTAMP_MAX {
+            return Err(InvalidFormat);
+        }
+
+        Ok(Self::new(duration, counter, node))
     }
 }
 
